@@ -522,26 +522,26 @@ func writeEvidence(id, tier string, seed int, spec CheckSpec, todo []HarnessSpec
 		samples = append(samples, "no cover witness recorded")
 	}
 	cov := map[string]interface{}{
-		"evaluations":         max(tot.q, 1),
-		"distinct_nontrivial": len(covers),
-		"rule":                "evaluations = SMT queries discharged by the solver (branch feasibility + assertion obligations) over symbolic paths of the real SSA; distinct_nontrivial = distinct reachability witnesses (vrt.Cover labels) for which the solver produced a satisfying path, counted per harness",
-		"samples":             samples,
-		"states":              max(tot.paths, 1),
-		"transitions":         max(tot.forks, 1),
+		"evaluations":                   max(tot.q, 1),
+		"distinct_nontrivial":           len(covers),
+		"rule":                          "evaluations = SMT queries discharged by the solver (branch feasibility + assertion obligations) over symbolic paths of the real SSA; distinct_nontrivial = distinct reachability witnesses (vrt.Cover labels) for which the solver produced a satisfying path, counted per harness",
+		"samples":                       samples,
+		"states":                        max(tot.paths, 1),
+		"transitions":                   max(tot.forks, 1),
 		"traces_validated_against_impl": nViol,
-		"obligations":         tot.obl,
-		"discharged":          tot.dis,
-		"unknown":             tot.unk,
-		"symbolic_paths":      tot.paths,
-		"solver":              solverName(),
-		"solver_time_s":       stime,
-		"functions_encoded":   fl,
-		"harnesses":           hs,
-		"bounds":              spec.Bounds,
-		"outside_claim":       spec.Outside,
-		"stubs_used":          spec.Stubs,
-		"inconclusive":        inconcl,
-		"explanation":         "bounded symbolic execution of the real go/ssa of /repo (regenerated on every run) with path forking; every branch feasibility and every assertion is decided by the SMT solver over all values of the symbolic inputs inside the stated bounds; states = symbolic paths explored to completion, transitions = fork points (symbolic branches, concretisations, schedule choices)",
+		"obligations":                   tot.obl,
+		"discharged":                    tot.dis,
+		"unknown":                       tot.unk,
+		"symbolic_paths":                tot.paths,
+		"solver":                        solverName(),
+		"solver_time_s":                 stime,
+		"functions_encoded":             fl,
+		"harnesses":                     hs,
+		"bounds":                        spec.Bounds,
+		"outside_claim":                 spec.Outside,
+		"stubs_used":                    spec.Stubs,
+		"inconclusive":                  inconcl,
+		"explanation":                   "bounded symbolic execution of the real go/ssa of /repo (regenerated on every run) with path forking; every branch feasibility and every assertion is decided by the SMT solver over all values of the symbolic inputs inside the stated bounds; states = symbolic paths explored to completion, transitions = fork points (symbolic branches, concretisations, schedule choices)",
 	}
 	ev := map[string]interface{}{
 		"property_id": id, "tier": tier, "seed": seed, "level": "model_checking",
